@@ -12,16 +12,22 @@ EXTENDS BrokerOut, Json
 
 Trace == ndJsonDeserialize("trace.ndjson")
 
-VARIABLE l
-tvars == <<vars, l>>
+VARIABLES l,        \* next trace line
+          cpend     \* the harness is inside its call of the cancel function
+tvars == <<vars, l, cpend>>
 
-TInit == Init /\ l = 1
+TInit == Init /\ l = 1 /\ cpend = FALSE
 Is(e) == l <= Len(Trace) /\ Trace[l].e = e
-Consume == l' = l + 1
+Consume == l' = l + 1 /\ UNCHANGED cpend
 
 TRead     == Is("Read") /\ RRead(Trace[l].d, Trace[l].x) /\ Consume
 TTake     == Is("Take") /\ och # <<>> /\ Head(och) = Trace[l].v /\ Term /\ Consume
-TCancel   == Is("Cancel") /\ Cancel /\ Consume
+(* Cancellation is an interval: CancelStart is recorded before the harness  *)
+(* calls the cancel function, CancelEnd after it returned; the context is    *)
+(* cancelled somewhere in between (silent step DoCancel).                    *)
+TCancelStart == Is("CancelStart") /\ ~cpend /\ cpend' = TRUE /\ UNCHANGED vars /\ l' = l + 1
+DoCancel     == l <= Len(Trace) /\ cpend /\ Cancel /\ UNCHANGED <<l, cpend>>
+TCancelEnd   == Is("CancelEnd") /\ cpend /\ ctxDone /\ cpend' = FALSE /\ UNCHANGED vars /\ l' = l + 1
 TClose    == Is("Close") /\ CloseTransport /\ Consume
 TLog      == Is("Log") /\ fpc = "log" /\ hold = Trace[l].v /\ FLog /\ Consume
 TReleased == Is("Released") /\ FRelease /\ Consume
@@ -30,7 +36,7 @@ TQuiesced == /\ Is("Quiesced")
              /\ Trace[l].leaked = 0
              /\ UNCHANGED vars /\ Consume
 TReset ==
-  /\ Is("Reset") /\ Consume
+  /\ Is("Reset") /\ l' = l + 1 /\ cpend' = FALSE
   /\ rpc' = "loop" /\ rpend' = <<>> /\ rerr' = FALSE
   /\ fpc' = "select" /\ hold' = 0 /\ endedBy' = "none"
   /\ q' = <<>> /\ qclosed' = FALSE /\ och' = <<>>
@@ -41,9 +47,9 @@ TReset ==
 Silent == /\ l <= Len(Trace)
           /\ (RLoop \/ RSend \/ RSendCtx \/ RExit \/ FTake \/ FClosed \/ FCtx \/ FFwd
               \/ FDrop \/ FNotice \/ FNoNotice)
-          /\ UNCHANGED l
+          /\ UNCHANGED <<l, cpend>>
 
-TNext == TRead \/ TTake \/ TCancel \/ TClose \/ TLog \/ TReleased \/ TQuiesced \/ TReset \/ Silent
+TNext == TRead \/ TTake \/ TCancelStart \/ DoCancel \/ TCancelEnd \/ TClose \/ TLog \/ TReleased \/ TQuiesced \/ TReset \/ Silent
 TSpec == TInit /\ [][TNext]_tvars
 
 NotAllConsumed == l <= Len(Trace)
